@@ -191,6 +191,16 @@ def lint(root, S, known_external):
                 if ok:
                     for m in check_types(el, 'callable'):
                         yield m
+                    for v in el.findall(S.CORE + 'return-value') + ([] if el.find(S.CORE + 'parameters') is None
+                                                                        else el.find(S.CORE + 'parameters').findall(S.CORE + 'parameter')):
+                        for t in v:
+                            if v.get('skip') == '1':
+                                continue
+                            is_list = t.tag == S.CORE + 'type' and t.get('name') in ('GLib.List', 'GLib.SList')
+                            if t.tag == S.CORE + 'array' or is_list:
+                                kids = [c for c in t if c.tag in (S.CORE + 'type', S.CORE + 'array')]
+                                if kids and kids[0].get('name') == 'gpointer' and kids[0].tag == S.CORE + 'type':
+                                    yield ('a list or array of an introspectable callable states no element type (untyped pointers)', el.get('name'))
                     if el.find('.//' + S.CORE + 'varargs') is not None:
                         yield ('an introspectable callable has varargs', el.get('name'))
                     rv = el.find(S.CORE + 'return-value')
@@ -266,6 +276,40 @@ def lint(root, S, known_external):
                     m = methods.get(mname)
                     if m is not None and m.get(S.GLIB + back) not in (None, p.get('name')):
                         yield ('property %s and the method disagree' % attr, p.get('name'))
+            # (the converse does not hold by design: several candidate getters all carry get-property, one is chosen)
+
+
+def accessor_world(rng, S, ET):
+    """a class with properties and candidate accessor methods, some carrying (set-property)/(get-property) annotations that name
+    another property, some properties carrying explicit (setter)/(getter)"""
+    props = rng.sample(['title', 'label', 'visible', 'count', 'is-active'], rng.randint(2, 4))
+    syms = [S.FS(S.CSYMBOL_TYPE_TYPEDEF, 'FooAcc', base_type=S.FT(S.CTYPE_STRUCT, '_FooAcc'), line=10),
+            S.FS(S.CSYMBOL_TYPE_STRUCT, '_FooAcc', base_type=S.FT(S.CTYPE_STRUCT, '_FooAcc', child_list=[
+                S.FS(S.CSYMBOL_TYPE_MEMBER, 'parent', base_type=S.td('GObject'), line=11)]), line=11),
+            S.func('foo_acc_get_type', S.td('GType'), [], line=5)]
+    comments = []
+    line, cline = 20, 1000
+    for p in props:
+        u = p.replace('-', '_')
+        for mname, setter in (('set_' + u, True), ('get_' + u, False), ('is_' + u, False), (u, False)):
+            if rng.random() < 0.55:
+                ps = [S.param('self', S.ptr(S.td('FooAcc')))] + ([S.param('v', S.td('gboolean' if p in ('visible', 'is-active') else 'gint'))] if setter else [])
+                syms.append(S.func('foo_acc_' + mname, S.VOID if setter else S.td('gboolean' if p in ('visible', 'is-active') else 'gint'), ps, line=line))
+                line += 1
+                if rng.random() < 0.4:
+                    other = rng.choice(props)
+                    comments.append(('/**\n * foo_acc_%s: (%s %s)\n * @self: it\n%s */' % (mname, 'set-property' if setter else 'get-property', other,
+                                                                                          ' * @v: value\n' if setter else ''), '/src/foo.c', cline))
+                    cline += 10
+        if rng.random() < 0.3:
+            comments.append(('/**\n * FooAcc:%s: (%s %s)\n *\n * A property.\n */' % (p, rng.choice(['setter', 'getter']),
+                                                                                   rng.choice(['set_' + u, 'get_' + u, 'other_thing'])), '/src/foo.c', cline))
+            cline += 10
+    dump = ('<?xml version="1.0"?><dump><class name="FooAcc" get-type="foo_acc_get_type" parents="GObject">'
+            + ''.join('<property name="%s" type="%s" flags="%d"/>' % (p, 'gboolean' if p in ('visible', 'is-active') else 'gint', rng.choice([3, 3, 1, 11]))
+                      for p in props) + '</class></dump>')
+    r = S.run(syms, comments=comments, includes=['GLib', 'GObject'], dump=ET.ElementTree(ET.fromstring(dump)), warnings=False)
+    return r.xml
 
 
 def main(tier, seed):
@@ -322,6 +366,11 @@ def main(tier, seed):
     except (Exception, SystemExit) as e:      # noqa
         ck.tie_broken('correspondence', 'the scanner fails on a generated world: %r' % (e,))
         extra = []
+    for b in range(15 if tier == 'quick' else 200):
+        try:
+            extra.append(('accessor world #%d' % b, accessor_world(rng, S, ET), []))
+        except (Exception, SystemExit) as e:      # noqa
+            ck.failing_input('the scanner fails on a class with accessor methods: %r' % (e,), dict(world=b))
     for what, xml, incs in extra:
         root = ET.fromstring(xml)
         ck.count_case(dict(world=what), nontrivial=False, kind='linted:' + what.split('#')[0].strip())
